@@ -11,6 +11,7 @@ use vstd::prelude::*;
 use std::fs::File;
 use std::path::{Path, PathBuf};
 use std::collections::HashMap;
+use std::collections::BTreeMap;
 verus! {
 //@include _prelude.rs
 //@include _file_model.rs
@@ -456,6 +457,74 @@ impl BlobStore {
 //@|     forall|i: int| 0 <= i < chunks@.len() ==> 1 <= (#[trigger] chunks@[i])@.len() <= 8182,
 //@|     chunks@.len() > 0, it1.index@ == 0 ==> last_pid == 0,
 //@|     it1.index@ > 0 ==> 2 <= last_pid < 65536 && !old(pager).alloc(last_pid as int) && pager.alloc(last_pid as int),
+//@end
+}
+
+// ---- index catalog (one page, rewritten in place)
+//@item nervusdb-storage/src/index/catalog.rs struct IndexDef keep-derive
+//@item nervusdb-storage/src/index/catalog.rs struct IndexCatalog
+//@trusted v_init_empty_catalog_page: init_empty_catalog_page only fills the local page buffer; no pager state involved
+#[verifier::external_body]
+pub fn init_empty_catalog_page(buf: &mut [u8; PAGE_SIZE]) { unimplemented!() }
+//@trusted decode_catalog_page: parses a local page image into the in-memory name -> (id, root) map; no pager state involved (its layout is not part of the frame argument)
+#[verifier::external_body]
+pub fn decode_catalog_page(buf: &[u8; PAGE_SIZE]) -> (r: Result<BTreeMap<String, IndexDef>>) { unimplemented!() }
+//@trusted encode_catalog_page: serialises the in-memory map into a local page image; no pager state involved
+#[verifier::external_body]
+pub fn encode_catalog_page(entries: &BTreeMap<String, IndexDef>, out: &mut [u8; PAGE_SIZE]) -> (r: Result<()>) { unimplemented!() }
+
+impl Pager {
+//@extract nervusdb-storage/src/pager.rs Pager::next_index_id ret r
+//@| ensures true
+//@end
+//@extract nervusdb-storage/src/pager.rs Pager::allocate_index_id ret r
+//@| requires old(self).wf()
+//@| ensures frame_ok(*old(self), *final(self), ISet::<int>::empty()), final(self).bitmap == old(self).bitmap, final(self).next() == old(self).next(),
+//@|     final(self).meta.index_catalog_root == old(self).meta.index_catalog_root,
+//@|     forall|i: int| 16384 <= i < old(self).bytes().len() ==> #[trigger] final(self).bytes()[i] == old(self).bytes()[i],
+//@end
+}
+
+impl IndexCatalog {
+// C18.client.frame.catalog — the catalog writes only its own page (and, when it creates the page or an
+// index tree, pages it obtains from allocate_page in the same call).
+//@extract nervusdb-storage/src/index/catalog.rs IndexCatalog::open_or_create ret r
+//@| requires old(pager).wf(), old(pager).meta.index_catalog_root != 0 ==> 2 <= old(pager).meta.index_catalog_root < 65536,
+//@| ensures old(pager).meta.index_catalog_root != 0 ==> *final(pager) == *old(pager),
+//@|     old(pager).meta.index_catalog_root == 0 ==> frame_ok(*old(pager), *final(pager), ISet::<int>::empty()),
+//@|     r is Ok ==> 2 <= r->Ok_0.page.0 < 65536 && final(pager).alloc(r->Ok_0.page.0 as int)
+//@|         && (old(pager).meta.index_catalog_root == 0 ==> !old(pager).alloc(r->Ok_0.page.0 as int))
+//@|         && (old(pager).meta.index_catalog_root != 0 ==> r->Ok_0.page.0 == old(pager).meta.index_catalog_root),
+//@end
+//@extract nervusdb-storage/src/index/catalog.rs IndexCatalog::flush ret r
+//@| requires old(pager).wf(),
+//@| ensures frame_ok(*old(pager), *final(pager), ISet::<int>::empty().insert(self.page.0 as int)),
+//@|     final(pager).meta == old(pager).meta, final(pager).bitmap == old(pager).bitmap,
+//@end
+}
+
+//@trusted v_entries_get: BTreeMap::get on the in-memory catalog map; no pager state involved
+#[verifier::external_body]
+pub fn v_entries_get<'a>(m: &'a BTreeMap<String, IndexDef>, name: &str) -> (r: Option<&'a IndexDef>) { m.get(name) }
+//@trusted v_entries_get_mut: BTreeMap::get_mut on the in-memory catalog map; no pager state involved
+#[verifier::external_body]
+pub fn v_entries_set_root(m: &mut BTreeMap<String, IndexDef>, name: &str, root: PageId) -> (r: bool) { unimplemented!() }
+//@trusted v_entries_insert: BTreeMap::insert on the in-memory catalog map; no pager state involved
+#[verifier::external_body]
+pub fn v_entries_insert(m: &mut BTreeMap<String, IndexDef>, name: &str, def: IndexDef) { m.insert(name.to_string(), def); }
+
+impl BTree {
+//@extract nervusdb-storage/src/index/btree.rs BTree::root ret r
+//@| ensures r == self.root
+//@end
+}
+impl IndexCatalog {
+//@extract nervusdb-storage/src/index/catalog.rs IndexCatalog::get_or_create ret r
+//@| requires old(pager).wf(),
+//@| ensures frame_ok(*old(pager), *final(pager), ISet::<int>::empty().insert(old(self).page.0 as int)),
+//@|     final(self).page == old(self).page,
+//@prewrite "self.entries.get(name)" => "v_entries_get(&self.entries, name)"
+//@prewrite "self.entries.insert(name.to_string(), def.clone());" => "v_entries_insert(&mut self.entries, name, def.clone());"
 //@end
 }
 
